@@ -1,12 +1,12 @@
 #!/bin/bash
 # usage: wave.sh <outdir> <tag> <k>     e.g. wave.sh /tmp/w4/Q0/out W4 4
-# Takes a sub-agent's deliverables (<ID>-b1 breaking change, <ID>-r1/-r2 refactorings), verifies each in a scratch
+# Takes a sub-agent's deliverables (<ID>-b1, -b2 ... breaking changes -> m<k>, m<k+1> ...; <ID>-r1/-r2 refactorings), verifies each in a scratch
 # worktree (verify_seed.sh / verify_refactor.sh), keeps them as seeded/<ID>-m<k> and variants/refactor/<tag>-<ID>-r<n>,
 # and runs the checks: the seed against its own property, the refactorings against all 20.
-OUT=$1; TAG=$2; K=$3
-for d in $OUT/*-b1; do
+OUT=$1; TAG=$2; K0=$3
+for d in $OUT/*-b[0-9]; do
   [ -d $d ] || continue
-  n=$(basename $d); id=${n%%-*}
+  n=$(basename $d); id=${n%%-*}; bn=${n##*-b}; K=$((K0+bn-1))
   /verif/tools/verify_seed.sh $id $K $d 2>&1 | grep -v conda | tail -2
   if [ -d /verif/seeded/$id-m$K ]; then
     r=$(/verif/tools/tryvariant.sh /verif/seeded/$id-m$K/patch.diff $id 2>&1 | grep -v conda | head -2 | cut -c1-260 | tr '\n' ' ')
